@@ -10,6 +10,8 @@ package main
 
 import (
 	"fmt"
+	"sort"
+	"strconv"
 	"strings"
 	"time"
 
@@ -186,6 +188,30 @@ func genC15(g *gen) {
 	}
 	// --- latency key search (valid ranges only)
 	g.emit("latency 0 16383")
+	// the single-slot ranges whose first witness `synthetic_latency_generator_<i>` lies furthest out (found here with the
+	// generator's own slot function over i = 0 … 400 000): the longest searches the code can be asked for. Every run takes
+	// the 24 hardest and a sample of the next 200.
+	first := make([]int, 16384)
+	for i := range first {
+		first[i] = -1
+	}
+	for i, seen := 0, 0; i < 400000 && seen < 16384; i++ {
+		s := c15RedisSlotForGen([]byte("synthetic_latency_generator_" + strconv.Itoa(i)))
+		if first[s] < 0 {
+			first[s] = i
+			seen++
+		}
+	}
+	order := make([]int, 16384)
+	for i := range order {
+		order[i] = i
+	}
+	sort.Slice(order, func(a, b int) bool { return first[order[a]] > first[order[b]] })
+	for k := 0; k < 224; k++ {
+		if k < 24 || g.r.Intn(g.pick(10, 2)) == 0 {
+			g.emit("latency %d %d", order[k], order[k])
+		}
+	}
 	nl := g.pick(25, 400)
 	for i := 0; i < nl; i++ {
 		l := g.r.Intn(16384)
